@@ -55,6 +55,9 @@ func c06Run(t *testing.T, st *vstat.Stats, p tPlan) *viol {
 	if hasFail {
 		st.Class("with-failure-reports")
 	}
+	if obs.HiccupAtThreshold {
+		st.Class("board-refused-the-broadcast-of-the-contribution-that-completed-the-threshold")
+	}
 	if obs.StaleSeen {
 		st.Class("stale-or-repeated-before-threshold")
 		st.NonTrivial(fmt.Sprintf("%d/%d/%v", p.N, p.T, obs.History))
@@ -401,7 +404,16 @@ func TestC06(t *testing.T) {
 		pairs = append(pairs, [2]int{6, 4}, [2]int{7, 4}, [2]int{7, 5})
 	}
 	rapidProp(t, st, "node-tapes", perShard(pick(400, 10000)), 2,
-		func(rt *rapid.T) tPlan { return genTPlan(rt, pairs, 2, true) },
+		func(rt *rapid.T) tPlan {
+			p := genTPlan(rt, pairs, 2, true)
+			switch rapid.IntRange(0, 5).Draw(rt, "hiccup") {
+			case 0:
+				p.Hiccup = rapid.IntRange(1, 40).Draw(rt, "hiccupAt")
+			case 1, 2:
+				p.Hiccup = -rapid.IntRange(1, 4).Draw(rt, "hiccupAtThreshold")
+			}
+			return p
+		},
 		func(p tPlan) *viol { return c06Run(t, st, p) })
 	rapidProp(t, st, "wide-walks", perShard(pick(600, 30000)), 13, c06GenWide, func(w c05Walk) *viol { return c06RunWide(st, w) })
 }
